@@ -1,8 +1,66 @@
-import ASV.Model.Regions
-import ASV.Spec.Components
+/-
+  C06 — Regions are the disjoint connected components of overlapping areas; numbering; parent links.
+  Property theorems only; helper lemmas in ASV/Proofs/{Sweep,SweepRegions,RegionsSort,RegionsLine,
+  RegionsComponents,…}.lean.  Model: ASV/Model/Regions.lean; spec: ASV/Spec/Components.lean.
+-/
+import ASV.Proofs.RegionsComponents
 namespace ASV.C06
-open ASV ASV.Regions
+open ASV ASV.Regions ASV.Components
 
-theorem clearRegions_empty (s : State) : (clearRegions s).regions = [] := rfl
+/-! ### regions are the connected components (linear records) -/
+
+/-- On a linear record whose candidate clusters and subregions are non-empty single spans inside the
+    record (any number, any arrangement: disjoint, nested, chained, touching, covering everything),
+    `create_regions` **succeeds**, leaves the areas untouched and adds one region per connected
+    component of the "share a base" relation:
+    * `IsComponents`: every area lies in exactly one group, the members of a group are linked by
+      chains of overlapping areas, and no member of one group shares a base with a member of another
+      (so two areas are in the same region **iff** a chain of overlapping areas links them, see
+      `same_region_iff_linked`);
+    * the regions are, in order, exactly one per group: location = the hull `[min start, max end)`
+      of the group, children = the group's candidate clusters and subregions;
+    * no two regions share a base. -/
+theorem regions_are_components_linear (s : State) (h : LinearOK s) :
+    ∃ (s' : State) (groups : List (List Feat)), createRegions s = .ok s' ∧
+      s'.cands = s.cands ∧ s'.subs = s.subs ∧ s'.protos = s.protos ∧
+      IsComponents (areasOf s) (groups.map (·.map toArea)) ∧
+      s'.regions.map view = groups.map expectedRegion ∧
+      s'.regions.Pairwise (fun r r' => ¬ r.loc.SharesBase r'.loc) :=
+  createRegions_linear_components s h
+
+/-- the property's wording, for any family of groups that `IsComponents`: two areas are in the same
+    group iff a chain of areas, each sharing a base with the next, links them -/
+theorem same_region_iff_linked {areas : List Area} {groups : List (List Area)} (h : IsComponents areas groups)
+    {a b : Area} {g : List Area} (hg : g ∈ groups) (ha : a ∈ g) : b ∈ g ↔ Linked areas a b :=
+  h.same_iff_linked hg ha
+
+/-- the generic sweep lemma (shared shape with C03): for spans sorted by start, comparing each span
+    with the running hull yields groups that concatenate to the input, are separated (a closed group
+    ends before any later group starts), whose hull is exact, and in which every member but the first
+    overlaps an earlier member -/
+theorem sweep_components_generic {α : Type} (lo hi : α → Int) (x : α) (xs : List α)
+    (hsorted : (x :: xs).Pairwise (fun a b => lo a ≤ lo b)) (hwf : ∀ y ∈ x :: xs, lo y < hi y) :
+    SweepG.GoSpec lo hi ⟨lo x, hi x, [x]⟩ xs (SweepG.sweep lo hi (x :: xs)) :=
+  SweepG.sweep_spec lo hi x xs hsorted hwf
+
+/-! ### non-vacuity -/
+
+/-- three subregions and a candidate cluster on a linear record of 100: [10,30) ∪ [20,40) chain,
+    [40,50) touches but shares no base, [60,70) ⊃ [62,65) nested -/
+def demo : State :=
+  { len := 100, circular := false,
+    cands := [⟨4, .cand, .simple ⟨60, 70, .fwd⟩, [9], [], []⟩],
+    subs := [⟨0, .sub, .simple ⟨10, 30, .fwd⟩, [], [], []⟩, ⟨1, .sub, .simple ⟨20, 40, .fwd⟩, [], [], []⟩,
+             ⟨2, .sub, .simple ⟨40, 50, .fwd⟩, [], [], []⟩, ⟨3, .sub, .simple ⟨62, 65, .fwd⟩, [], [], []⟩] }
+
+example : LinearOK demo := by
+  refine ⟨rfl, ?_, rfl⟩
+  intro f hf
+  simp only [demo, List.cons_append, List.nil_append, List.mem_cons, List.not_mem_nil, or_false] at hf
+  rcases hf with rfl | rfl | rfl | rfl | rfl <;> exact ⟨_, rfl, by decide, by decide, by decide⟩
+
+example : (createRegions demo).toOption.map (fun s => s.regions.map view) =
+    some [(.simple ⟨10, 40, .fwd⟩, [], [0, 1]), (.simple ⟨40, 50, .fwd⟩, [], [2]), (.simple ⟨60, 70, .fwd⟩, [4], [3])] := by
+  decide +kernel
 
 end ASV.C06
